@@ -463,8 +463,9 @@ def St.onNodeUpdate (s : St) (n : Nat) (new : Option NodeInfo) : St :=
             else match aget s.nodes other with
               | none => s'
               | some oi =>
-                let was := old.isSome && oldCidr.containsAddr oi.v4Addr
-                let now := new.isSome && newCidr.containsAddr oi.v4Addr
+                -- the zero CIDR ("no IPv4 address") is not a subnet (as in `nodeInOurSubnet`)
+                let was := old.isSome && oldCidr != ⟨0, 0⟩ && oldCidr.containsAddr oi.v4Addr
+                let now := new.isSome && newCidr != ⟨0, 0⟩ && newCidr.containsAddr oi.v4Addr
                 if was != now then s'.markDirty e.1 else s') s
       else s
     let s := match new with | some i => addTunnelRefs s n i | none => s
